@@ -13,6 +13,7 @@ import (
 	"time"
 
 	"github.com/kercylan98/vivid"
+	"github.com/kercylan98/vivid/internal/mailbox"
 	"github.com/kercylan98/vivid/internal/verifrt"
 	"github.com/kercylan98/vivid/pkg/log"
 )
@@ -335,14 +336,27 @@ func vfHammerBatch(R *verifrt.Report, ci int, seed uint64, workers int, dur time
 				})
 				return n
 			}
-			last, stagnant := count(), 0
-			for i := 0; i < 60 && last > 0 && stagnant < 10; i++ {
+			// ... nor does the root's backlog: Stop is a poison kill of the root, which is handled after everything queued
+			// before it (on a loaded machine the dead letters of the hammer alone can take longer than the timeout)
+			backlog := func() int32 {
+				if sys.Context != nil {
+					if mb, ok := sys.Context.mailbox.(*mailbox.UnboundedMailbox); ok {
+						u, s := mailbox.VfPending(mb)
+						return u + s
+					}
+				}
+				return 0
+			}
+			last, lastB, stagnant := count(), backlog(), 0
+			for i := 0; i < 180 && last > 0 && stagnant < 10; i++ {
 				time.Sleep(time.Second)
-				if c := count(); c < last {
-					last, stagnant = c, 0
+				c, b := count(), backlog()
+				if c < last || b < lastB {
+					stagnant = 0
 				} else {
 					stagnant++
 				}
+				last, lastB = c, b
 			}
 			if last == 0 {
 				R.Inconcl(fmt.Sprintf("batch %d: Stop(20s) timed out under load but the termination completed afterwards (slow, not stuck)", ci))
@@ -359,7 +373,7 @@ func vfHammerBatch(R *verifrt.Report, ci int, seed uint64, workers int, dur time
 				return true
 			})
 			sort.Strings(left)
-			R.Violate(ci, "c10-actors-stuck-after-stop", "Stop", fmt.Sprintf("Stop after the hammer returned %v and the registry stopped shrinking for 10 s with %d actor(s) left (registered before Stop: %d): %v", err, last, len(reg), left), nil)
+			R.Violate(ci, "c10-actors-stuck-after-stop", "Stop", fmt.Sprintf("Stop after the hammer returned %v and neither the registry nor the root's backlog shrank for 10 s with %d actor(s) left (registered before Stop: %d): %v", err, last, len(reg), left), nil)
 		}
 	case <-time.After(60 * time.Second):
 		buf := make([]byte, 1<<18)
